@@ -329,6 +329,13 @@ def _get_single_args(*args):
 _re_condition = re.compile('(?<!~)[?*]')
 
 
+def _accumulate(accumulator, values):
+    res = accumulator(values)
+    if isinstance(res, (float, np.floating)) and not np.isfinite(res):
+        return Error.errors['#NUM!']  # An overflow is not an Excel value.
+    return res
+
+
 def _xfilter(accumulator, test_range, condition, operating_range):
     from .operators import LOGIC_OPERATORS
     operator, operating_range = '=', np.asarray(operating_range)
@@ -350,7 +357,7 @@ def _xfilter(accumulator, test_range, condition, operating_range):
                 b = np.vectorize(f, otypes=[bool])(test_range['raw'])
                 b &= ~test_range['blank']  # A blank cell is not a text.
                 try:
-                    return accumulator(operating_range[b])
+                    return _accumulate(accumulator, operating_range[b])
                 except FoundError as ex:
                     return ex.err
             elif any(v in condition for v in ('~?', '~*')):
@@ -391,7 +398,7 @@ def _xfilter(accumulator, test_range, condition, operating_range):
         if condition != '':
             b &= ~test_range['blank']  # A blank cell is not a text.
     try:
-        return accumulator(operating_range[b])
+        return _accumulate(accumulator, operating_range[b])
     except FoundError as ex:
         return ex.err
 
